@@ -115,7 +115,7 @@ def _parser_keywords(tree):
                 args = list(n.value.args) + [k.value for k in n.value.keywords if k.arg in ("pattern", "string")]
                 if f.attr == "compile" and args and isinstance(args[0], ast.Constant):
                     flags = [k.value for k in n.value.keywords if k.arg == "flags"]
-                    fl = eval(compile(ast.Expression(flags[0]), REL, "eval"), {"re": re}) if flags else 0
+                    fl = _eval_flags(flags[0]) if flags else 0
                     pat_of_var[n.targets[0].id] = (args[0].value, int(fl))
                 elif f.attr == "search":
                     for a in args:
@@ -460,6 +460,167 @@ def _caller_writes(rel, producers=("lookup", "ssh_config_factory")):
 
 ASCII = [chr(i) for i in range(128)]
 
+def _eval_flags(node):
+    """value of a `flags=` expression built from `re.X` constants; anything else (a local name, a call) is an unfamiliar
+    shape: TranslateError, the facts are then MEASURED on the live class"""
+    try:
+        return int(eval(compile(ast.Expression(node), REL, "eval"), {"re": re, "__builtins__": {}}))
+    except Exception as e:  # noqa
+        raise TranslateError(f"flags expression {ast.unparse(node)!r} is not built from re constants ({e!r})")
+
+
+# ---- MEASURING the same facts on the live classes (used when the AST does not have the familiar shape; cross-checked
+# against the AST reading when both exist)
+OPT_FORM = r"\^\\s\*([a-z]+)\[\\s=\]\+\((.*)\)\$"
+BASE_KWS = [("host", "hosts", ".*"), ("hostname", "hostname", "[\\w.-]*"), ("port", "port", "[\\d]+"), ("user", "user", "[\\w]*"),
+            ("identitiesonly", "identities_only", "yes|no"), ("identityfile", "identity_file", "[\\w.\\/\\@~-]*")]
+BASE_KH = dict(prefix="|1|", sep="|", digest="sha1", lsep=",", parts=4)
+BASE_BLOCK = ("^[ \\t]*host[ \\t=].*?(?=^[ \\t]*(?:host|match)[ \\t=]|\\Z)", int(re.I | re.S | re.M))
+BASE_KHLINE = ("^[ \\t]*(?![#@])(\\S+)[ \\t]+([\\w\\-@.]+)[ \\t]+(\\S+)(?:[ \\t].*)?$", int(re.I | re.M))
+UNREADABLE = []   # filled by generate(): facts that could neither be read nor measured (tie = correspondence only)
+
+
+class _RecProxy:
+    """stands in for `re` inside scrapli.ssh_config: records (pattern, flags) of every re.compile, hands out real patterns"""
+
+    def __init__(self):
+        self.pairs = []
+
+    def __getattr__(self, name):
+        return getattr(re, name)
+
+    def compile(self, pattern, flags=0):
+        if isinstance(pattern, str):
+            self.pairs.append((pattern, int(flags)))
+        return re.compile(pattern, flags)
+
+
+def _mod():
+    from vlib.common import use_repo
+    use_repo()
+    import scrapli.ssh_config as mod
+    return mod
+
+
+def _recorded_compiles(cls_name, attr, text):
+    """the (pattern, flags) pairs compiled while the real `_parse` of the class runs on `text`"""
+    mod = _mod()
+    cls = getattr(mod, cls_name)
+    o = cls.__new__(cls)
+    setattr(o, attr, text)
+    proxy, saved = _RecProxy(), mod.re
+    mod.re = proxy
+    try:
+        o._parse()
+    except Exception as e:  # noqa
+        raise TranslateError(f"{cls_name}._parse raised {e!r} on a probe text")
+    finally:
+        mod.re = saved
+    return proxy.pairs
+
+
+def _cfg_parse(text):
+    mod = _mod()
+    o = mod.SSHConfig.__new__(mod.SSHConfig)
+    o.ssh_config = text
+    return o._parse() or {}
+
+
+def _measure_cfg(attrs):
+    """-> ([(keyword, attribute, value regex)] in canonical order, (block pattern, flags)): the option patterns are the
+    recorded compiles of the familiar form with flags I|M; WHICH attribute a keyword sets is measured by parsing a probe
+    block that uses the keyword once"""
+    pairs = _recorded_compiles("SSHConfig", "ssh_config", "Host p\n HostName h\n Port 1\n User u\n IdentitiesOnly yes\n IdentityFile f\n")
+    opts, other = [], []
+    for pat, fl in pairs:
+        m = re.fullmatch(OPT_FORM, pat)
+        if m and fl == int(re.I | re.M):
+            opts.append((m.group(1), m.group(2)))
+        else:
+            other.append((pat, fl))
+    if not opts or len(other) != 1:
+        raise TranslateError(f"SSHConfig._parse: compiled patterns not recognised: {pairs!r}")
+    mod = _mod()
+    dflt = vars(mod.Host())
+    out = []
+    for kw, vre in opts:
+        sample = "probe" if vre == ".*" else next((c for c in ("7", "a", "yes", "no", vre.split("|")[0]) if re.fullmatch(vre, c, re.I)), None)
+        if sample is None:
+            raise TranslateError(f"SSHConfig._parse: no sample value for {vre!r}")
+        text = f"Host zzprobe\n  {kw} {sample}\n" if kw != "host" else f"Host {sample}\n"
+        hosts = list(_cfg_parse(text).values())
+        if len(hosts) != 1:
+            raise TranslateError(f"SSHConfig._parse: probe for {kw!r} gave {len(hosts)} entries")
+        changed = [a for a, v in vars(hosts[0]).items() if v != dflt.get(a) and (a != "hosts" or kw == "host")]
+        if len(changed) != 1:
+            raise TranslateError(f"SSHConfig._parse: keyword {kw!r} sets {changed!r}")
+        out.append((kw, changed[0], vre))
+    order = ["hosts", "hostname"] + list(attrs)
+    if any(a not in order for _, a, _ in out) or len({a for _, a, _ in out}) != len(out):
+        raise TranslateError(f"SSHConfig._parse: measured attributes {out!r}")
+    out.sort(key=lambda t: order.index(t[1]))
+    return out, other[0]
+
+
+def _measure_kh_line():
+    pairs = _recorded_compiles("SSHKnownHosts", "ssh_known_hosts", "a t k\n")
+    if len(pairs) != 1:
+        raise TranslateError(f"SSHKnownHosts._parse: compiled patterns {pairs!r}")
+    return pairs[0]
+
+
+def _measure_known_hosts():
+    """the known_hosts constants, by VERIFYING the familiar scheme on probe lines through the real class: list separator,
+    hashed-entry prefix / separator / number of parts, HMAC digest"""
+    import base64, hmac as _hmac
+    mod = _mod()
+
+    def obj(text):
+        o = mod.SSHKnownHosts.__new__(mod.SSHKnownHosts)
+        o.ssh_known_hosts = text
+        o.hosts = o._parse() or {}
+        return o
+
+    def found(o, name):
+        try:
+            return bool(o.lookup(name))
+        except Exception:  # noqa
+            return None
+    lseps = [c for c in ",;:/+&" if set(obj(f"pa{c}pb t k\n").hosts) == {"pa", "pb"}]
+    salt, name = b"0123456789abcdefghij", "probe.host"
+
+    def hid(prefix, digest, extra=""):
+        return prefix + base64.b64encode(salt).decode() + "|" + base64.b64encode(_hmac.new(salt, name.encode(), digest).digest()).decode() + extra
+    digests = [d for d in ("sha1", "sha256", "md5", "sha512") if found(obj(hid("|1|", d) + " t k\n"), name) is True
+               and found(obj(hid("|1|", d) + " t k\n"), "other.host") is False]
+    if len(lseps) != 1 or len(digests) != 1:
+        raise TranslateError(f"SSHKnownHosts: measured list separators {lseps!r}, digests {digests!r}")
+    d = digests[0]
+    if found(obj(hid("|2|", d) + " t k\n"), name) is not False or found(obj(hid("|1|", d, "|x") + " t k\n"), name) is not None:
+        raise TranslateError("SSHKnownHosts: hashed entries are not `|1|salt|hash` with exactly 4 parts")
+    return dict(prefix="|1|", sep="|", digest=d, lsep=lseps[0], parts=4)
+
+
+def _read_or_measure(what, read, measure, same=lambda a, b: a == b):
+    """AST reading where the code has the familiar shape, cross-checked against the measurement; else the measurement;
+    else None (recorded in UNREADABLE: the tie is then the per-run correspondence only)"""
+    r = m = None
+    er = em = None
+    try:
+        r = read()
+    except Exception as e:  # noqa  (any failure of the reader = unfamiliar shape)
+        er = e
+    try:
+        m = measure()
+    except Exception as e:  # noqa
+        em = e
+    if r is not None and m is not None and not same(r, m):
+        raise TranslateError(f"{what}: the source reads as {r!r} but the live class behaves as {m!r}")
+    if r is None and m is None:
+        UNREADABLE.append(f"{what}: shape unreadable ({er!r}) and not measurable ({em!r})")
+    return r if r is not None else m
+
+
 
 def _flag_names(fl):
     return sorted(f.name for f in re.RegexFlag if f.name and f.value & int(fl) and bin(f.value).count("1") == 1 and f.name not in ("UNICODE", "NOFLAG"))
@@ -495,19 +656,26 @@ def _compiled_patterns(tree, cls_name, fn_name):
                 args = list(n.value.args) + [k.value for k in n.value.keywords if k.arg == "pattern"]
                 flags = [k.value for k in n.value.keywords if k.arg == "flags"]
                 if args and isinstance(args[0], ast.Constant):
-                    fl = eval(compile(ast.Expression(flags[0]), REL, "eval"), {"re": re}) if flags else 0
+                    fl = _eval_flags(flags[0]) if flags else 0
                     out[n.targets[0].id] = (args[0].value, int(fl))
     return out
 
 
 def _parse_consts(tree, kws):
-    cp = _compiled_patterns(tree, "SSHConfig", "_parse")
-    if "host_pattern" not in cp:
-        raise TranslateError("SSHConfig._parse: no host_pattern")
-    kp = _compiled_patterns(tree, "SSHKnownHosts", "_parse")
-    if "host_pattern" not in kp:
-        raise TranslateError("SSHKnownHosts._parse: no host_pattern")
-    khpat, khfl = kp["host_pattern"]
+    def read_block():
+        cp = _compiled_patterns(tree, "SSHConfig", "_parse")
+        if "host_pattern" not in cp:
+            raise TranslateError("SSHConfig._parse: no host_pattern")
+        return cp["host_pattern"]
+
+    def read_kh():
+        kp = _compiled_patterns(tree, "SSHKnownHosts", "_parse")
+        if "host_pattern" not in kp:
+            raise TranslateError("SSHKnownHosts._parse: no host_pattern")
+        return kp["host_pattern"]
+    block = _read_or_measure("SSHConfig._parse block pattern", read_block, lambda: _measure_cfg(DATA["host_attrs"])[1]) or BASE_BLOCK
+    cp = {"host_pattern": block}
+    khpat, khfl = _read_or_measure("SSHKnownHosts._parse line pattern", read_kh, _measure_kh_line) or BASE_KHLINE
     # the key type class, BEHAVIOURALLY: the characters c for which `h c k` is a key line
     try:
         khre = re.compile(khpat, khfl)
@@ -542,7 +710,9 @@ def generate():
     for a in attrs + ["hosts", "hostname"]:
         if a not in dflt:
             raise TranslateError(f"Host.__init__ does not set {a}")
-    kws = _parser_keywords(tree)
+    del UNREADABLE[:]
+    kws = _read_or_measure("SSHConfig._parse option keywords", lambda: _parser_keywords(tree), lambda: _measure_cfg(attrs)[0],
+                           same=lambda a, b: sorted(a) == sorted(b)) or list(BASE_KWS)
     for kw, attr, _ in kws:
         if attr not in dflt:
             raise TranslateError(f"_parse sets unknown Host attribute {attr}")
@@ -551,7 +721,7 @@ def generate():
     if len(stars) != 1:
         raise TranslateError(f"catch-all key literals differ: {sorted(stars)}")
     star = stars.pop()
-    kh = _known_hosts(tree)
+    kh = _read_or_measure("SSHKnownHosts constants", lambda: _known_hosts(tree), _measure_known_hosts) or dict(BASE_KH)
     cfg_writes = _lookup_writes(tree, "SSHConfig", "lookup")
     kh_writes = _lookup_writes(tree, "SSHKnownHosts", "lookup")
     drv_writes = _caller_writes(DRV)
@@ -591,4 +761,6 @@ def generate():
     b += "/-- stores through the (shared, cached) objects ssh_config_factory / lookup hand out, in base_driver.py -/\n"
     b += f"def driverLookupWrites : List String := [{', '.join(lstr(x) for x in drv_writes)}]\n"
     b += "end Scrapli.Gen.SSHConfig\n"
-    return [(OUT, b), (OUT_PARSE, _parse_consts(tree, kws))]
+    bp = _parse_consts(tree, kws)
+    DATA["unreadable"] = list(UNREADABLE)
+    return [(OUT, b), (OUT_PARSE, bp)]
